@@ -101,3 +101,83 @@ Theorem C05_chunk_size_guard_boundary :
   MuxModel.chunk_total 4294967287 = 0.
 Proof. exact MuxRoundtrip.chunk_guard_boundary. Qed.
 Print Assumptions C05_chunk_size_guard_boundary.
+
+(** ---- codec layer: resource bounds of the VP8L specification decoder (Vp8l/Vp8lCost),
+    for EVERY input ---- *)
+From Webp Require Vp8l.Vp8lPrefix Vp8l.Vp8lSpec Vp8l.Vp8lCost Riff.DemuxCodecCost Riff.DemuxAllocSites Alpha.AlphaModel.
+From WebpGen Require Allocs.
+
+(** The whole VP8L stream: no run ends out of fuel (every loop terminates within fuel that
+    is 1 + the declared pixel count, resp. 1 + the alphabet size), the model never panics,
+    and accepted dimensions are at most 2^14 x 2^14 = 2^28 pixels (< MaxImageArea). *)
+Theorem C05_vp8l_decode_cost : forall bytes,
+  match Vp8lSpec.decode bytes with
+  | Ok img => Vp8lCost.dims_ok (Vp8lSpec.i_w img) (Vp8lSpec.i_h img)
+  | Err e => e <> Vp8lPrefix.E_FUEL
+  | Panic => False
+  end.
+Proof. exact Vp8lCost.decode_cost. Qed.
+Print Assumptions C05_vp8l_decode_cost.
+
+(** One entropy-coded image of declared size w x h (main image, transform data, colour
+    table, meta prefix image), for any context and any bit stream: with fuel 1 + w*h the
+    token loop always stops by itself (at most one iteration per pixel), reads only input
+    bits, takes backward references only inside what it has produced, and yields exactly
+    w*h pixels — never more. *)
+Theorem C05_vp8l_pixels_cost : forall c w h s,
+  match Vp8lSpec.decode_pixels c w h s with
+  | Ok (px, s') => length px = Z.to_nat (w * h) /\ (length s' <= length s)%nat
+  | Err e => e <> Vp8lPrefix.E_FUEL
+  | Panic => False
+  end.
+Proof. exact Vp8lCost.decode_pixels_cost. Qed.
+Print Assumptions C05_vp8l_pixels_cost.
+
+Theorem C05_vp8l_sub_image_cost : forall w h s,
+  match Vp8lSpec.decode_sub_image w h s with
+  | Ok (px, s') => length px = Z.to_nat (w * h) /\ (length s' <= length s)%nat
+  | Err e => e <> Vp8lPrefix.E_FUEL
+  | Panic => False
+  end.
+Proof. exact Vp8lCost.decode_sub_image_cost. Qed.
+Print Assumptions C05_vp8l_sub_image_cost.
+
+(** The code-length loop: fuel 1 + (symbols still to assign) always suffices. *)
+Theorem C05_vp8l_code_lengths_cost : forall fuel clt ntok nsym prev acc s,
+  (Z.to_nat nsym < fuel)%nat ->
+  Vp8lCost.shrinks s (Vp8lPrefix.read_lens_loop fuel clt ntok nsym prev acc s).
+Proof. exact Vp8lCost.read_lens_loop_shrinks. Qed.
+Print Assumptions C05_vp8l_code_lengths_cost.
+
+(** ALPH plane decoder model: dimension guards before anything is built. *)
+Theorem C05_alpha_decode_guards : forall (ldec : Z -> Z -> list Z -> option (list Z)) data w h,
+  match AlphaModel.decode ldec data w h with
+  | Ok _ =>
+    1 <= w /\ 1 <= h /\ w * h <= 2^30 /\
+    (forall hd payload, data = hd :: payload -> hd mod 4 = 0 -> w * h <= Z.of_nat (length payload))
+  | Err _ => True
+  | Panic => False
+  end.
+Proof. exact DemuxCodecCost.alpha_decode_guards. Qed.
+Print Assumptions C05_alpha_decode_guards.
+
+(** Allocation sites of the Go decoding paths: the list regenerated from the current source
+    is exactly the audited list, and every audited site has a bound class. *)
+Theorem C05_alloc_sites_audited :
+  map fst DemuxAllocSites.audited_alloc_sites = Allocs.alloc_sites /\
+  forallb (fun e => existsb (String.eqb (fst (snd e))) DemuxAllocSites.bound_classes)
+          DemuxAllocSites.audited_alloc_sites = true.
+Proof. split; [reflexivity|exact DemuxAllocSites.audited_classes_ok]. Qed.
+Print Assumptions C05_alloc_sites_audited.
+
+(** The guard behind every table lookup that follows a ReadSymbol (colour-cache index,
+    length / distance prefix, code-length code): for every code-length vector the decoder
+    accepts and every bit stream, the decoded symbol is an index of the vector, i.e.
+    0 <= symbol < alphabet size.  (Partial for the "index in bounds" goal: the Go lookup
+    tables themselves are modelled in Vp8l/Vp8lLut, whose two-level theorem is only stated.) *)
+From Webp Require Vp8l.Vp8lSymRange.
+Theorem C05_vp8l_symbol_in_alphabet_partial : forall lens t s v s',
+  Vp8lPrefix.tree_of_lens lens = Ok t -> Vp8lPrefix.read_symbol t s = Ok (v, s') ->
+  0 <= v < Z.of_nat (length lens).
+Proof. exact Vp8lSymRange.symbol_in_alphabet. Qed.
+Print Assumptions C05_vp8l_symbol_in_alphabet_partial.
